@@ -321,8 +321,8 @@ def check_interact(c, f):
         empties = set()
         for t in g.nodes:
             if t.kind == 'test' and norm(t.ast) == norm(dv):
-                empties |= set(s for s, l in t.succ if l == 'false')
-        ok, p = g.must_pass(kb[0], {m}, set(slog) | empties, skip_labels=('exc',))
+                empties.add((t, 'false'))
+        ok, p = g.must_pass(kb[0], {m}, set(slog), skip_labels=('exc',), through_edges=empties)
         c.check(bool(slog) and ok, f, wk, "what is sent to the child was logged as 'send' first (unless empty)",
                 witness=g.describe_path(p) if p else None, tag='interact-send-logged:L%d' % 0 if False else 'interact-send-logged:' + str(wr.index((m, wk))))
 
@@ -343,6 +343,7 @@ MUTANTS = [
     ('send-log-uncoerced', 'pty_spawn', "        s = self._coerce_send_string(s)\n        self._log(s, 'send')\n\n        b = self._encoder.encode(s, final=False)\n        return os.write(self.child_fd, b)", "        self._log(s, 'send')\n        s = self._coerce_send_string(s)\n\n        b = self._encoder.encode(s, final=False)\n        return os.write(self.child_fd, b)", 'D4'),
     ('interact-no-read-log', 'pty_spawn', "                self._log(self._decoder.decode(data, final=False), 'read')\n                os.write(self.STDOUT_FILENO, data)", "                os.write(self.STDOUT_FILENO, data)", 'D5'),
     ('interact-no-send-log', 'pty_spawn', "                self._log_control(data)\n                self.__interact_writen(self.child_fd, data)\n\n\ndef spawnu", "                self.__interact_writen(self.child_fd, data)\n\n\ndef spawnu", 'D5'),
+    ('interact-no-send-log-escape', 'pty_spawn', "                    if data:\n                        self._log_control(data)\n                    self.__interact_writen(self.child_fd, data)\n                    break", "                    self.__interact_writen(self.child_fd, data)\n                    break", 'D5'),
     ('interact-raw-read-log', 'pty_spawn', "                self._log(self._decoder.decode(data, final=False), 'read')\n                os.write(self.STDOUT_FILENO, data)", "                self._log(data, 'read')\n                os.write(self.STDOUT_FILENO, data)", 'D4'),
     ('popen-log-exception', 'popen_spawn', "            except OSError:\n                # treated as end of stream below\n                pass", "            except OSError as e:\n                self._log(e, 'read')", 'D4'),
     ('ctrl-no-decode', 'pty_spawn', "        if self.encoding is not None:\n            s = s.decode(self.encoding, 'replace')\n        self._log(s, 'send')", "        self._log(s, 'send')", 'D4'),
